@@ -145,6 +145,19 @@ CHECKS = {
         note="Trusted base: numba's documented prange semantics (chunks, scalar reductions summed at the join) and "
              "sequential consistency at bytecode granularity; the compiled machine code itself is not schedulable and "
              "is only cross-checked natively. Graphs up to 60 nodes are sampled."),
+    "C19": dict(
+        engine="pysched",
+        technique="deterministic simulation: run_iradon / iradon with the ThreadPoolExecutor replaced by simulated worker "
+                  "threads under a seeded interleaving (line-level pre-emption in roi_iradon.py); oracle = bitwise "
+                  "schedule independence for fixed workers, tolerance equality across worker counts / ROI / linearity, "
+                  "arg-max within 1.5 px of the geometry's prediction, conversion round trips",
+        text="The simulation decides the worker-count / schedule / ROI part of the statement; the coordinate "
+             "conversions are pure and are evaluated as invariants inside every run. Geometries (ystep, y0 offsets, "
+             "odd/even heights, 0-180 and 0-360 scans) and point-grain positions are sampled.",
+        design_ref="DESIGN.md section 4, C19",
+        note="Trusted base: numpy and scipy.fft (whose own worker threads are not controlled) are deterministic pure "
+             "functions; the point grain's sinogram is the harness's construction (Gaussian profile on the continuous "
+             "dty of the grain)."),
 }
 
 NOT_APPLICABLE = {
